@@ -657,7 +657,7 @@ impl Prop for C17 {
     }
     fn runs(&self, tier: Tier) -> u64 {
         match tier {
-            Tier::Quick => 4000,
+            Tier::Quick => 7000,
             Tier::Thorough => 100_000,
         }
     }
